@@ -152,6 +152,7 @@ type Keyper struct {
 	Strategy        *Strategy // nil: honest
 	stashedCommit   []outMsg  // EvalFirst: commitment waiting for the evaluations
 	unsolicitedSent map[uint64]bool
+	straySent       map[uint64]bool
 
 	rig *Rig
 
